@@ -449,7 +449,7 @@ def gen_db_dump(rng) -> dict:
 STATIC_POOLS = {
     'iata': ['LHR', 'CDG', 'BOS', 'LAX', 'DTW', 'QQQ'], 'country': ['US', 'CA', 'FR', 'AT', 'DE', 'ZZ'],
     'continent': ['EU', 'NA', 'SA', 'AS', 'XX'], 'dist': [1000.0, 3000.0, 5000.0, 349.22764800000004],
-    'seats': [50, 100, 180, 250], 'service': ['J', 'F', 'S', 'Z'], 'aircraft': ['738', '320', '77W', 'ZZZ'],
+    'seats': [0, 50, 100, 180, 250], 'service': ['J', 'F', 'S', 'Z'], 'aircraft': ['738', '320', '77W', 'ZZZ'],
     'days': list(range(17897, 17912)), 'lats': [-33.9, 12.2, 46.9, 48.1], 'lons': [-118.4, 2.5, 13.1, 151.2],
 }
 
@@ -514,6 +514,16 @@ def gen_filter(rng, pools) -> dict:
         fj['min_seat_capacity'] = int(rng.choice(seats)) + int(rng.integers(-1, 2))
     if rng.random() < 0.2:
         fj['max_seat_capacity'] = int(rng.choice(seats)) + int(rng.integers(-1, 2))
+    # bounds of exactly zero are conditions like any other (all-cargo query `max_seat_capacity=0`; seed C14_4)
+    z = rng.random()
+    if z < 0.04:
+        fj['max_seat_capacity'] = 0
+    elif z < 0.06:
+        fj['max_distance'] = 0 if rng.random() < 0.5 else 0.0
+    elif z < 0.08:
+        fj['min_seat_capacity'] = 0
+    elif z < 0.10:
+        fj['min_distance'] = 0.0
     if rng.random() < 0.2:
         fj['service_type'] = _pick_list(rng, pools['service'])
     if rng.random() < 0.2:
@@ -847,7 +857,8 @@ def text_cases(ctx, n):
     cases = []
     # boundary stream
     for fj in [{}, {'service_type': []}, {'aircraft_type': [], 'service_type': []}, {'airport': 'LHR'},
-               {'min_distance': 1000, 'max_distance': 5000}, {'airport': []}, {'airport': [], 'origin_country': 'US'},
+               {'min_distance': 1000, 'max_distance': 5000}, {'max_seat_capacity': 0}, {'max_distance': 0},
+               {'max_distance': 0.0, 'service_type': ['J']}, {'min_seat_capacity': 0, 'max_seat_capacity': 0}, {'airport': []}, {'airport': [], 'origin_country': 'US'},
                {'country': 'US', 'origin_country': 'US'}, {'origin_airport': 'BOS', 'origin_country': 'US'}]:
         for table in (None, 'f'):
             cases.append({'type': 'filter', 'filter': fj, 'table': table})
@@ -1358,6 +1369,9 @@ def gen_sem_cases(rng, info: DBInfo, n: int):
             'min_distance': f['distance'], 'max_distance': f['distance']}}})
         cases.append({'type': 'sem', 'mode': 'once', 'q': {'kind': 'query', 'sample': 0.5, 'filter': {
             'aircraft_type': f['aircraft_type'], 'min_seat_capacity': f['seat_capacity']}}})
+    for kind in ('query', 'count', 'frequent'):
+        for flt in ({'max_seat_capacity': 0}, {'max_distance': 0}, {'min_seat_capacity': 0, 'max_seat_capacity': 0}):
+            cases.append({'type': 'sem', 'q': {'kind': kind, 'filter': flt}, 'mode': 'once'})
     if len(info.rows) >= 150:
         cases.append({'type': 'sem', 'q': {'kind': 'query', 'sample': 0.5}, 'mode': 'x4'})
         cases.append({'type': 'sem', 'q': {'kind': 'query', 'sample': 0.5,
